@@ -75,6 +75,25 @@ def concrete(inp):
     return {"ok": not bad, "detail": "; ".join(bad)}
 
 
+def concrete_integer_temperature(inp):
+    """'at every temperature': a whole number of kelvins given as an int (the library's own tests call it like that) and as a float are the
+    same temperature -- a labelled concrete point (the dtype of a number has no counterpart in real arithmetic)"""
+    import numpy
+    bad = []
+    comps = [("antoine", _fcomp("antoine", 7.20389, -1733.926, -39.485)), ("frost", _fcomp("frost", 16.0, -3800.0, -200000.0))]
+    comps += [("built-in %s" % n, getattr(Components, n)) for n in ("H2O", "EtOH")]
+    for label, comp in comps:
+        for t in (300, 350, numpy.int64(375)):
+            for fn in (comp.get_vapor_pressure, comp.get_vaporisation_heat, comp.get_specific_heat):
+                a, b = float(fn(t)), float(fn(float(t)))
+                if not close(a, b, 1e-12, 0):
+                    bad.append("%s %s(%r) = %r but %s(%r) = %r" % (label, fn.__name__, t, a, fn.__name__, float(t), b))
+            a, b = float(comp.get_cooling_heat(t, 290)), float(comp.get_cooling_heat(float(t), 290.0))
+            if not close(a, b, 1e-12, 0):
+                bad.append("%s get_cooling_heat(%r, 290) = %r, with floats %r" % (label, t, a, b))
+    return {"ok": not bad, "detail": "; ".join(bad[:3]), "inputs": inp}
+
+
 FALLBACK = [{"a": 7.20389, "b": -1733.926, "c": -39.485, "T": 333.15}, {"a": 16.3, "b": -3800.0, "c": -230000.0, "T": 350.0}]
 
 
@@ -118,6 +137,7 @@ def vapour(job, thorough=False):
                     env = {"vpa_1": a, "vpb_1": b, "vpc_1": c, "T": t}
                     job.validated("P %s" % kind, close(terms.evaluate(lift(P), env), fc.get_vapor_pressure(t), 1e-9))
                     job.validated("H %s" % kind, close(terms.evaluate(lift(H), env), fc.get_vaporisation_heat(t), 1e-9))
+    job.refute_concretely("C13/integer_temperatures", "vf.props.C13:concrete_integer_temperature", {})
     # every built-in component, constants lifted exactly
     for name in sorted(n for n in vars(Components) if isinstance(getattr(Components, n), pv.Component)):
         comp = build.lift_obj(getattr(Components, name))
